@@ -243,6 +243,39 @@ def circle_lower_bound(Pc, other, target, cap=600000):
     return None
 
 
+def line_param_lower_bound(A, Pc, target, d, cap=600000):
+    """Lipschitz branch and bound over the arclength s of the line / segment A: s -> dist(x(s), circle) (closed form
+    hypot(rho - r, h)) is 1-Lipschitz.  For a line only |s - s_c| <= r + d has to be searched (s_c = foot of the circle centre):
+    outside, dist(x(s), circle) >= |x(s) - c| - r >= |s - s_c| - r > d >= target."""
+    if A["kind"] == "segment":
+        a0, u = A["a"], A["b"] - A["a"]
+        lo, hi = 0.0, nrm(u)
+        u = u / hi
+    else:
+        a0, u = A["p"], A["u"] / nrm(A["u"])
+        sc = float((Pc["c"] - a0) @ u)
+        half = (Pc["r"] + max(d, 0.0)) * (1 + 1e-9) + 1e-9
+        lo, hi = sc - half, sc + half
+    n = 4096
+    w = (hi - lo) / (2 * n)
+    sv = lo + (2 * np.arange(n) + 1) * w
+    lb_done = INF
+    for _ in range(40):
+        F = dist_many(Pc, a0 + np.outer(sv, u))
+        lb = F - w * (1 + 1e-9) - 1e-13 * (1 + float(np.max(np.abs(F))) + float(np.max(np.abs(sv))))
+        keep = lb < target
+        if np.any(~keep):
+            lb_done = min(lb_done, float(np.min(lb[~keep])))
+        if not np.any(keep):
+            return lb_done
+        sv = sv[keep]
+        if 2 * len(sv) > cap:
+            return None
+        w *= 0.5
+        sv = np.concatenate([sv - w, sv + w])
+    return None
+
+
 # ------------------------------------------------------------------------------------------------- parameter maps (scipy)
 def param_spec(P, L):
     """(bounds, map u -> member point, special parameter values) of a primitive"""
@@ -476,17 +509,27 @@ def slab_lower_bound(A, B, pa, pb):
     if nrm(n) == 0.0:
         return -INF
     n = n / nrm(n)
+    qs = []                                             # orthonormal basis of the unbounded line directions
     for P in (A, B):
         if P["kind"] == "line":
-            n = n - float(n @ P["u"]) * P["u"]
-        elif P["kind"] == "plane":
-            s = float(n @ P["n"])
-            if s == 0.0:
+            q = P["u"] / nrm(P["u"])
+            for _ in range(2):
+                for q0 in qs:
+                    q = q - float(q @ q0) * q0
+            if nrm(q) > 1e-9:
+                qs.append(q / nrm(q))
+    for P in (A, B):
+        if P["kind"] == "plane":
+            sgn = float(n @ P["n"])
+            if sgn == 0.0:
                 return -INF
-            n = math.copysign(1.0, s) * P["n"]
-        if nrm(n) < 1e-9:
-            return -INF
-        n = n / nrm(n)
+            n = math.copysign(1.0, sgn) * P["n"]
+    for _ in range(2):
+        for q0 in qs:
+            n = n - float(n @ q0) * q0
+    if nrm(n) < 1e-9:
+        return -INF
+    n = n / nrm(n)
     v = -(support(A, n) + support(B, -n))
     return v if math.isfinite(v) else -INF
 
@@ -526,10 +569,12 @@ def check_c11(fname, A, B, rng, tier):
             if member_residual(B, A["x"]) * (1 - 1e-12) >= d - tol:
                 return "certified", "", d
             return "undecided", "closed-form point-circle distance %.9g < d - tol" % member_residual(B, A["x"]), d
-        lb = circle_lower_bound(B, A, d - tol)
+        lb = line_param_lower_bound(A, B, d - tol, d)
+        if lb is None or lb < d - tol:
+            lb = circle_lower_bound(B, A, d - tol)
         if lb is not None and lb >= d - tol:
             return "certified", "", d
-        return "undecided", "circle branch and bound did not close", d
+        return "undecided", "neither branch and bound (over the line parameter, over the circle angle) closed", d
     return "undecided", "no certificate for this pair", d
 
 
@@ -544,9 +589,10 @@ def _worker_c11(task):
     rng = np.random.default_rng([seed, 11, fi, chunk])
     orng = np.random.default_rng([seed, 1111, fi, chunk])
     out = dict(fi=fi, n=0, fails=[], digests=set(), nontrivial=set(), samples=[], status={}, undecided=[])
-    for i in range(n):
-        A, B, tag = K.make_scene(k1, k2, rng)
-        K.mark_progress(i)
+    directed = K.directed_cases(fname) if chunk == 0 else []
+    for i in range(n + len(directed)):
+        A, B, tag = directed[i - n] if i >= n else K.make_scene(k1, k2, rng)
+        K.mark_progress(min(i, n - 1))
         st, detail, d = check_c11(fname, A, B, orng, tier)
         out["n"] += 1
         out["status"][st] = out["status"].get(st, 0) + 1
@@ -594,7 +640,7 @@ DOMAIN = ("as bounded/c10.py (" + K.DOMAIN + ")  Minus: inputs of functions with
 def main():
     a = C.args()
     t0 = time.time()
-    per_fn = 600 if a.tier == "quick" else 4000
+    per_fn = 400 if a.tier == "quick" else 3000
     chunk_n = 25 if a.tier == "quick" else 100
     deadline = t0 + (125 if a.tier == "quick" else 1050)
     tasks = [(fi, c, chunk_n, a.seed, a.tier) for c in range(per_fn // chunk_n) for fi in K.selected_functions()]
